@@ -423,6 +423,14 @@ theorem C10_ring_pop_singleton (h : Heap) (hi : Inv h) (r : Nat) (c1 : Cyc h [r]
   have : h.pv r = r := by have := hi.pn r (c1.bound r (by simp)); rw [l] at this; exact this
   simp [pop, this]
 
+/-- **`Of vs` has cycle `vs`**: on any well-formed heap, `Of(v, vs...)` returns an element `r` whose cycle,
+read by `next` from `r`, carries exactly `v :: vs`, and the heap stays well formed.  (`Of()` and
+`New(n ≤ 0)` return nil by definition.) -/
+theorem C10_ring_of (h : Heap) (hi : Inv h) (v : Int) (vs : List Int) :
+    ∃ r l, (of h (v :: vs)).2 = some r ∧ Cyc (of h (v :: vs)).1 (r :: l) ∧
+      (r :: l).map (of h (v :: vs)).1.val = v :: vs ∧ Inv (of h (v :: vs)).1 :=
+  of_cyc h hi v vs
+
 /-- non-vacuity of `Cyc`/`Inv`: `Of 1 2 3` on the empty heap is the cycle of cells `[0, 2, 1]` carrying
 `[1, 2, 3]` (the loop of `New` inserts each fresh cell directly after the first one) -/
 example : Cyc (of {} [1, 2, 3]).1 [0, 2, 1] ∧ [0, 2, 1].map (of {} [1, 2, 3]).1.val = [1, 2, 3] ∧
